@@ -42,6 +42,7 @@ fn alphabet(property: &str) -> (Idx, Vec<Op>) {
             Op::Update(2, 2),  // only the non-leading component of (age, opt): opt := null
             Op::Update(1, 17), // only the non-leading component of (opt, opt2): opt2 := 7
             Op::Update(2, 12), // codes := [q,x]
+            Op::Update(2, 18), // codes := five fresh values around x
             Op::Update(1, 13), // codes := [] (releases x)
             Op::Update(1, 0),  // age := 40 (releases tuple)
             Op::UpdateUnknown(1),
@@ -72,6 +73,7 @@ fn alphabet(property: &str) -> (Idx, Vec<Op>) {
             Op::Update(1, 16),
             Op::Update(2, 8),
             Op::Update(2, 1),
+            Op::Update(2, 18), // codes := five fresh values around one another document owns (rejected as a whole)
             Op::UpdateUnknown(1),
             Op::Remove(1),
             Op::Remove(2),
